@@ -6,10 +6,10 @@
   those functions fails the obligation whatever the correspondence run happens to sample.
 -/
 namespace Frugal.Skeleton
-def decoder : String := "49a2ad728a2385482e2465b2"
+def decoder : String := "ccc4122215142eb0a0ebde38"
 def encoder : String := "5cbdaefa998ed87261c39697"
 def resolver : String := "c7f04d2a6c11e568bc95e877"
 /-- full text (not only control structure) of `structDesc`, `tField`, `tType`, `fromDefsFields`,
     `fromDefsField`, `GetField`, `newTType`: the descriptor tables every codec theorem takes for granted -/
-def descTable : String := "519afb8a5253956851c19cc0"
+def descTable : String := "cbfebd4eaff63fd247cc0a76"
 end Frugal.Skeleton
